@@ -273,7 +273,8 @@ def run_all(ctx, cfgbin, work, thorough):
     # the running server built from a configuration behaves as the configuration says (spec/serverapp; spec growth,
     # DESIGN section 6): host/route order, redirect, WebSocket proxying and its byte pump, log-level masks
     import c15_server
-    c15_server.run_part(ctx, "thorough" if thorough else "quick")
+    # what the running server does is not part of what C15 states (the loader): drift, never a C15 violation
+    vlib.run_growth(ctx, "serverapp", c15_server.run_part, "thorough" if thorough else "quick")
     return ctx.finish()
 
 
